@@ -553,6 +553,8 @@ def varint(F, R):
             return evv(t[1], env)
         if k == 'call' and t[1].endswith('get_u8'):
             return env[t]
+        if k == 'un' and t[1] == 'Not' and t[2][0] == 'const' and len(t[2]) > 2 and t[2][2] in ('u8', 'u16', 'u32', 'bool'):
+            return (~t[2][1]) & {'u8': 0xFF, 'u16': 0xFFFF, 'u32': 0xFFFFFFFF, 'bool': 1}[t[2][2]]
         if k == 'bin':
             a, c = evv(t[2], env), evv(t[3], env)
             return {'Add': a + c, 'Shl': a << c, 'BitAnd': a & c, 'BitOr': a | c, 'Mul': a * c, 'Sub': a - c}[t[1]]
@@ -592,7 +594,10 @@ def varint(F, R):
                 nval += 1
                 if got is not None and got != want:
                     badv = badv or 'bytes %s decode to %d, the specification says %d' % (['0x%02X' % x for x in bytes_], got, want)
-    R.ob('C02.varint', 'decode_variable_length_cursor|value==sum((b&0x7f)<<7k)', badv is None and nval >= 9, badv or 'evaluated %d samples' % nval)
+    if badv and badv.startswith('cannot'):
+        R.undecided('C02.varint', 'decode_variable_length_cursor|value==sum((b&0x7f)<<7k)', badv, b.loc(0))
+    else:
+        R.ob('C02.varint', 'decode_variable_length_cursor|value==sum((b&0x7f)<<7k)', badv is None and nval >= 9, badv or 'evaluated %d samples' % nval)
     R.ob('C02.varint', 'decode_variable_length_cursor|continuation rejected after 4th byte', any(p.end[0] == 'return' and p.ret and p.ret[0] == 'agg' and p.ret[2] == 'Err' and sum(1 for nm, a, bi in p.calls if nm.endswith('get_u8')) == 4 for p in paths),
          'a fourth byte with the continuation bit must end in an error')
 
